@@ -106,6 +106,14 @@ def CONFIGS():
                  "b": job(1, 1, 0, 0, [("DC", 1), ("DH", 1)], tag=1)},
         "maxgen": 2,
     })
+    # slot-only wrapper over a slot-only host with FEWER slots than the wrapper: the wrapped level decides (since the
+    # ROLLBACK fix 7b15517 configuration `rollback` never fills H, so nothing else made the inner slot level bind)
+    C["slotstack"] = finish({
+        "locs": {"C1": slotloc("DC", 2, wraps="H"), "H": slotloc("DH", 1)},
+        "deps": {"DC": ["C1"], "DH": ["H"]},
+        "jobs": {"a": job(1, 1, 0, 0, [("DC", 1)], tag=0),
+                 "b": job(1, 1, 0, 0, [("DC", 1), ("DH", 1)], tag=1)},
+    })
     # rollback on plain hardware locations, two targets (losers of generation 1 still waiting)
     C["retry"] = finish({
         "locs": {"L1": hwloc("D1", 1, 1, 1, 1), "L2": slotloc("D2", 1)},
@@ -949,8 +957,8 @@ def _cex_steps(trace):
 
 def run_property(ctx, prop):
     C = CONFIGS()
-    replayed = ctx.pick(["basic", "stacked", "replicas", "rollback", "retry", "cancel", "aliased", "overlap", "rbactive", "rbstacked", "probefail", "probestacked"],
-                        ["basic", "storage", "stacked", "replicas", "rollback", "retry", "cancel", "aliased", "overlap", "multi", "hostile",
+    replayed = ctx.pick(["basic", "stacked", "replicas", "rollback", "slotstack", "retry", "cancel", "aliased", "overlap", "rbactive", "rbstacked", "probefail", "probestacked"],
+                        ["basic", "storage", "stacked", "replicas", "rollback", "slotstack", "retry", "cancel", "aliased", "overlap", "multi", "hostile",
                          "rbactive", "rbstacked", "probefail", "probefail3", "probestacked"])
     mc_only = ctx.pick(["hostile"], [])
     invs = PROP_INVARIANTS[prop]
